@@ -400,6 +400,7 @@ func (p *Polyline) decode(d *decoder) {
 		(*p)[i].Y = d.readFloat64()
 		(*p)[i].Z = d.readFloat64()
 	}
+	d.checkUnitLength(*p)
 }
 
 // Project returns a point on the polyline that is closest to the given point,
